@@ -13,7 +13,7 @@ def run(chk):
     recs = core.run_driver('mm', tier=chk.tier, seed=chk.seed, args=dict(prop='C09'), timeout=3000)
     chk.validate('domain', 'Trace_MM', 'Trace_MM.cfg', recs, driver='mm', jobs=14)
     goods = [r for r in recs if r['exc'] == '' and any(f['name'] == 'cacg_eigenvalues' for f in r['fields']) and r['norm'] == 'eigenvalue']
-    good = goods[0]
+    good = goods[0] if goods else None
 
     def corrupt(r):
         for f in r['fields']:
